@@ -146,19 +146,41 @@ def rule_miller(fx, rep):
                 nm = c.get('name')
                 res = c.get('res') or c['def']
                 args = t['args']
+                # the accumulator is tracked as an element of the free abelian group on the line values L(j, n) =
+                # line(coefficient n of pair j) evaluated at p_j: ell multiplies by one of them, squaring doubles every
+                # exponent, conjugation (a ring automorphism) renames them -- so the *value* returned is compared, and
+                # the order of commuting factors between two squarings is immaterial
                 if res == ELL:
+                    fv = fr.deref_operand(args[0])
                     coef = fr.deref_operand(args[1])
                     pt = fr.deref_operand(args[2])
-                    events.append(('ell', coef, pt))
+                    j = coef[1] if isinstance(coef, tuple) and coef and coef[0] == 'c' else None
+                    ptok = j is not None and isinstance(pt, Agg) and pt.items and isinstance(pt.items[0], Lin) and list(pt.items[0].t) == ['p%dx' % j]
+                    if not isinstance(fv, Lin):
+                        return False
+                    atom = 'L(%d,%d)' % (j, coef[2]) if ptok else 'line(%r) at the point of another pair / untracked' % (coef,)
+                    fr.store_through(args[0], fv.add(Lin.atom(atom)))
                     return True
-                if nm == 'square' and c.get('trait') == 'ff::Field':
-                    events.append(('square',))
+                if nm in ('square', 'mul_assign') and c.get('trait') == 'ff::Field':
+                    fv = fr.deref_operand(args[0])
+                    if not isinstance(fv, Lin):
+                        return False
+                    if nm == 'square':
+                        fr.store_through(args[0], fv.scale(2))
+                    else:
+                        ov = fr.deref_operand(args[1])
+                        if not isinstance(ov, Lin):
+                            return False
+                        fr.store_through(args[0], fv.add(ov))
                     return True
                 if nm == 'conjugate':
-                    events.append(('conjugate',))
+                    fv = fr.deref_operand(args[0])
+                    if not isinstance(fv, Lin):
+                        return False
+                    fr.store_through(args[0], Lin({(k[5:-1] if k.startswith('conj(') else 'conj(%s)' % k): v for k, v in fv.t.items()}))
                     return True
                 if nm == 'one' and c.get('trait') == 'ff::Field':
-                    fr.storev(t['dest'], 'ONE')
+                    fr.storev(t['dest'], Lin())
                     return True
                 if nm == 'next' and c['def'] == 'std::iter::Iterator::next' or (nm == 'next' and res.startswith('<std::slice::Iter')):
                     v = fr.deref_operand(args[0])
@@ -234,23 +256,26 @@ def rule_miller(fx, rep):
                 idx[j] += 1
             if neg:
                 exp_ev.append(('conjugate',))
-            got = []
-            for e in events:
+            want = Lin()
+            for e in exp_ev:
                 if e[0] == 'ell':
-                    coef, pt = e[1], e[2]
-                    j = coef[1] if isinstance(coef, tuple) and coef[0] == 'c' else None
-                    n_ = coef[2] if j is not None else None
-                    # the G1 point must belong to the same pair
-                    ptok = isinstance(pt, Agg) and pt.items and isinstance(pt.items[0], Lin) and list(pt.items[0].t) == ['p%dx' % j] if j is not None else False
-                    got.append(('ell', j if ptok else ('mismatched-point', j), n_))
+                    want = want.add(Lin.atom('L(%d,%d)' % (e[1], e[2])))
+                elif e[0] == 'square':
+                    want = want.scale(2)
                 else:
-                    got.append(e if e[0] != 'unwrap-none' else ('unwrap-none',))
-            if got != exp_ev:
-                # find first difference
-                d = next((i for i, (a, b_) in enumerate(zip(got, exp_ev)) if a != b_), min(len(got), len(exp_ev)))
-                bad.append('pairs %s (1 = identity): event %d is %r, expected %r (%d vs %d events)' % (list(combo), d, got[d] if d < len(got) else None, exp_ev[d] if d < len(exp_ev) else None, len(got), len(exp_ev)))
+                    want = Lin({'conj(%s)' % k: v for k, v in want.t.items()})
+            rets = [r_[1] for r_ in res if not (isinstance(r_[1], tuple) and r_[1] and r_[1][0] == 'diverges')]
+            if [e for e in events if e[0] == 'unwrap-none']:
+                bad.append('pairs %s (1 = identity): a coefficient is requested after the prepared ones are used up' % (list(combo),))
+            elif len(rets) != 1 or not isinstance(rets[0], Lin):
+                bad.append('pairs %s (1 = identity): returns %r' % (list(combo), rets[:2]))
+            elif rets[0] != want:
+                g_, w_ = rets[0].t, want.t
+                diff = sorted(k for k in set(g_) | set(w_) if g_.get(k, 0) != w_.get(k, 0))
+                k0 = diff[0]
+                bad.append('pairs %s (1 = identity): the returned product has %s to the power %s, expected %s (%d factors differ)' % (list(combo), k0, hex(g_.get(k0, 0)), hex(w_.get(k0, 0)), len(diff)))
     rep.check(not bad and n_scen == 21, 'GUARD', 'miller_loop:filter-and-schedule',
-              'for 0..2 pairs and every placement of identities: pairs with an identity are skipped, every other pair consumes exactly its %d coefficients in order, interleaved with %d squarings as the producer schedules them; conjugation for negative x' % (ncoef, len(bin(x >> 1)) - 3),
+              'for 0..2 pairs and every placement of identities the returned value is prod_j prod_n L(j,n)^(2^s(n)) over the pairs without an identity (s(n) = squarings the producer schedules after coefficient n; %d coefficients, %d squarings), conjugated for negative x -- compared as an element of the free abelian group on the line values, so commuting factors may be multiplied in any order' % (ncoef, len(bin(x >> 1)) - 3),
               '; '.join(bad[:3]), where, construct=ML)
 
 
